@@ -172,9 +172,9 @@ func (g *ltGen) text(field string) string {
 	r := g.r
 	switch field {
 	case "Tags":
-		return pick(r, []string{"Me", "Other", "wet track", "", "a&b", `q"t`, "<fast>", "ü"})
+		return pick(r, []string{"Me", "Other", "wet track", "", "a&b", `q"t`, "<fast>", "ü", "50% wet", "%d laps", "100%", "%s", " lead", "trail ", "%"})
 	case "SpeedRating":
-		return pick(r, []string{"ZR", "(Y)", "W", "V", "R", "Y&Z", `"H"`, "ü", "<W>"})
+		return pick(r, []string{"ZR", "(Y)", "W", "V", "R", "Y&Z", `"H"`, "ü", "<W>", "%v", "9%"})
 	case "DriveWheels":
 		return pick(r, []string{"front", "rear", "all", ""})
 	case "IntakeType":
